@@ -8,6 +8,10 @@ use crate::rv::RV;
 /// Alternative spellings, default (Scheme) dialect.
 pub const ALT_DEFAULT: &[&str] = &[
     // numbers
+    // decimal spellings of numbers that the printer writes with an exponent (and vice versa)
+    "0.0000001", "0.00000015", "-0.00000000025", "0.000001", "0.00001", "1000000000000000000000.0", "123456789012345678901234.5", "15e-8", "1.5e-7", "1e-7", "0.1e-3", "100e-2", "1e+21", "12.5e-1",
+    // strings and characters spelled with hex escapes for every control character and DEL
+    "\"\\x7f;\"", "\"a\\x7F;b\"", "\"\x7f\"", "\"\\x1f;\\x7f;\\x80;\\x9f;\\xa0;\"", "\"\\x0;\\x1;\\x8;\\xb;\\xc;\\xe;\\x1b;\"", "#\\x7f", "#\\x1f", "#\\x80", "#\\x9f", "#\\xa0", "#\\x0", "#\\x1b",
     "0", "-0", "+5", "-5", "007", "#b101", "#b-101", "#o17", "#o+17", "#d10", "#d-10", "#xff", "#xFF", "#x-fF", "#x+0a", "#b0", "1.5", "-1.5", "+1.5",
     "1e3", "1E3", "1e+3", "1e-3", "1.5e3", "1.5E-3", "0.5", "10.25", "#d1.5", "#d1e3", "123456789012345678901234567890", "-123456789012345678901234567890",
     "18446744073709551615", "18446744073709551616", "-9223372036854775808", "-9223372036854775809", "1.0e21", "1e21", "5e-324", "1e-7", "100.0", "#xFFFFFFFFFFFFFFFFFFFF",
@@ -40,6 +44,7 @@ pub const ALT_ELISP: &[&str] = &[
     "\"\"", "\"a\"", "\"\\\"\\\\\"", "\"\\a\\b\\t\\n\\v\\f\\r\\e\\s\\d\"", "\"\\^a\\^Z\"", "\"\\101\"", "\"\\101\\102\"", "\"\\0\"", "\"\\377\"", "\"\\x41\"", "\"\\x41\\ \"", "\"\\xff\"",
     "\"\\x3bb\"", "\"\\u03bb\"", "\"\\U0001F600\"", "\"\\N{U+3bb}\"", "\"a\\ b\"", "\"\\101λ\"", "\"λ\"", "\"\\u0041\\101\"", "\"a\\qb\"", "\"\\\n\"", "\"\\400\"", "\"\\x100\"",
     "\"\\377\x7f\"", "\"\x7f\\377\"", "\"\\377a\"", "\"a\\377\"", "\"\\377 \"", "\"\\101\x7f\"", "\"é\\x21\"", "\"\\x21é\"", "\"\\377\\u00e9\"", "\"\\x21\u{80}\"", "\"\u{80}\\x21\"", "\"\\x21\\x7f\"",
+    "0.0000001", "0.00000015", "15e-8", "1.5e-7", "1e-7", "-1e-7", "1e+21", "0.1e-3", "[0.00000015 15e-8]", "\"\\x7f\"", "\"a\\d\"", "?\\x7f", "?\\d", "?\\177", "\"\\177\"",
     "1abc", "1+", "1-", "1/2", "12ab", "0x10", "1.5.6", "1e3", "1e", "1.", "123", "-5", "1.5", "2020-01-01", "9a9", "(1+ x)", "[1- 2]", "550e8400-e29b-41d4-a716-446655440000",
     "(a . b)", "'a", "`(a ,b)", "#u8(1 2)", "#t", "#f", "#nil", "#\\a", "(defun f (x) \"doc\" (+ x 1))", "[?a ?b]", "(:k . v)", "[nil t]",
 ];
